@@ -1,2 +1,265 @@
+(* C18 — proofs about the suffix choice of prettyDouble / prettyNumber (common.cpp).
+   The thresholds and divisors are the exact values of the C++ float literals (1e18f is
+   999999984306749440, 1e-3f is 8589935/8589934592, ...), so the statements are exact
+   over Q.  What "%.1f" prints for the chosen mantissa is outside the model (oracle). *)
 From Common Require Import Prelude.
+From Coq Require Import QArith Qabs.
 From C18 Require Import Model.
+Local Open Scope Q_scope.
+
+(* SI letter -> decimal exponent *)
+Definition si_exp (s : N) : option Z :=
+  if (s =? 69)%N then Some 18%Z else if (s =? 80)%N then Some 15%Z
+  else if (s =? 84)%N then Some 12%Z else if (s =? 71)%N then Some 9%Z
+  else if (s =? 77)%N then Some 6%Z else if (s =? 107)%N then Some 3%Z
+  else if (s =? 109)%N then Some (-3)%Z else if (s =? 117)%N then Some (-6)%Z
+  else if (s =? 110)%N then Some (-9)%Z else if (s =? 112)%N then Some (-12)%Z
+  else if (s =? 102)%N then Some (-15)%Z else None.
+
+(* the choice names an SI scale: the suffix is the SI letter of 10^k, the number is
+   divided by (k > 0) or multiplied with (k < 0) a positive factor that is 10^|k| up to the
+   rounding of a float literal (relative error <= 2^-24) *)
+Definition pc_wf (c : pchoice) : bool :=
+  match si_exp (pc_suffix c) with
+  | Some k => Bool.eqb (pc_mul c) (k <? 0)%Z && (0 <? pc_factor c)%Z &&
+              (Z.abs (pc_factor c - 10 ^ Z.abs k) * 2 ^ 24 <=? 10 ^ Z.abs k)%Z
+  | None => false
+  end.
+
+(* the if-chain of both functions, on the magnitude *)
+Definition chain (first : Z) (a : Q) : pchoice :=
+  if Qle_bool (inject_Z first) a then PC false F1e18 69
+  else if Qle_bool (inject_Z F1e15) a then PC false F1e15 80
+  else if Qle_bool (inject_Z F1e12) a then PC false F1e12 84
+  else if Qle_bool (inject_Z F1e09) a then PC false F1e09 71
+  else if Qle_bool (inject_Z F1e06) a then PC false F1e06 77
+  else if Qle_bool (inject_Z F1e03) a then PC false F1e03 107
+  else if Qle_bool a F1em12 then PC true F1e15 102
+  else if Qle_bool a F1em09 then PC true F1e12 112
+  else if Qle_bool a F1em06 then PC true F1e09 110
+  else if Qle_bool a F1em03 then PC true F1e06 117
+  else if Qle_bool a 1 then PC true F1e03 109
+  else PC false 1 0.
+
+Lemma pd_choice_chain first v : pd_choice_gen first v = chain first (Qabs v).
+Proof. reflexivity. Qed.
+
+Lemma Qle_bool_false x y : Qle_bool x y = false -> y < x.
+Proof.
+  intro H. apply Qnot_le_lt. intro L. apply Qle_bool_iff in L. congruence.
+Qed.
+
+Lemma injZ_pos F : (0 < F)%Z -> 0 < inject_Z F.
+Proof. intro H. unfold Qlt, inject_Z. simpl. lia. Qed.
+
+(* ------------------------------------------------------ large magnitudes: v / F *)
+Definition large_ok (a : Q) (c : pchoice) : Prop :=
+  pc_wf c = true /\ pc_mul c = false /\
+  1 <= pretty_mantissa c a /\ pretty_mantissa c a < 1000 /\
+  a == pretty_mantissa c a * inject_Z (pc_factor c).
+
+Lemma large_branch F G s a :
+  (0 < F)%Z -> inject_Z F <= a -> a < inject_Z G -> (G <= 1000 * F)%Z ->
+  pc_wf (PC false F s) = true -> large_ok a (PC false F s).
+Proof.
+  intros HF Hlo Hhi HG Hwf. pose proof (injZ_pos F HF) as HFq.
+  unfold large_ok, pretty_mantissa. cbn [pc_mul pc_factor PC].
+  split; [assumption|]. split; [reflexivity|]. split; [|split].
+  - apply Qle_shift_div_l; [assumption|]. now rewrite Qmult_1_l.
+  - apply Qlt_shift_div_r; [assumption|]. eapply Qlt_le_trans; [exact Hhi|].
+    unfold Qle, Qmult, inject_Z. cbn [Qnum Qden]. lia.
+  - rewrite Qmult_comm. symmetry. apply Qmult_div_r. intro E. rewrite E in HFq. discriminate HFq.
+Qed.
+
+Lemma chain_large a :
+  inject_Z F1e03 <= a -> a < inject_Z (1000 * F1e18) -> large_ok a (chain F1e18 a).
+Proof.
+  intros Hlo Hhi. unfold chain.
+  destruct (Qle_bool (inject_Z F1e18) a) eqn:E1.
+  { apply Qle_bool_iff in E1. apply (large_branch F1e18 (1000 * F1e18)); try assumption; reflexivity || (apply Z.leb_le; reflexivity). }
+  apply Qle_bool_false in E1.
+  destruct (Qle_bool (inject_Z F1e15) a) eqn:E2.
+  { apply Qle_bool_iff in E2. apply (large_branch F1e15 F1e18); try assumption; reflexivity || (apply Z.leb_le; reflexivity). }
+  apply Qle_bool_false in E2.
+  destruct (Qle_bool (inject_Z F1e12) a) eqn:E3.
+  { apply Qle_bool_iff in E3. apply (large_branch F1e12 F1e15); try assumption; reflexivity || (apply Z.leb_le; reflexivity). }
+  apply Qle_bool_false in E3.
+  destruct (Qle_bool (inject_Z F1e09) a) eqn:E4.
+  { apply Qle_bool_iff in E4. apply (large_branch F1e09 F1e12); try assumption; reflexivity || (apply Z.leb_le; reflexivity). }
+  apply Qle_bool_false in E4.
+  destruct (Qle_bool (inject_Z F1e06) a) eqn:E5.
+  { apply Qle_bool_iff in E5. apply (large_branch F1e06 F1e09); try assumption; reflexivity || (apply Z.leb_le; reflexivity). }
+  apply Qle_bool_false in E5.
+  destruct (Qle_bool (inject_Z F1e03) a) eqn:E6.
+  { apply Qle_bool_iff in E6. apply (large_branch F1e03 F1e06); try assumption; reflexivity || (apply Z.leb_le; reflexivity). }
+  apply Qle_bool_false in E6. exfalso. apply (Qlt_irrefl a). eapply Qlt_le_trans; eassumption.
+Qed.
+
+(* the mantissa that is printed carries the sign of the input *)
+Lemma mant_abs c v : (0 < pc_factor c)%Z -> Qabs (pretty_mantissa c v) == pretty_mantissa c (Qabs v).
+Proof.
+  intro H. pose proof (injZ_pos _ H) as Hq.
+  assert (A : Qabs (inject_Z (pc_factor c)) == inject_Z (pc_factor c)) by (apply Qabs_pos; now apply Qlt_le_weak).
+  unfold pretty_mantissa. destruct (pc_mul c).
+  - now rewrite Qabs_Qmult, A.
+  - unfold Qdiv. now rewrite Qabs_Qmult, Qabs_Qinv, A.
+Qed.
+
+Lemma pc_wf_factor c : pc_wf c = true -> (0 < pc_factor c)%Z.
+Proof.
+  unfold pc_wf. destruct (si_exp (pc_suffix c)); [|discriminate].
+  rewrite !andb_true_iff. intros [[_ H] _]. now apply Z.ltb_lt.
+Qed.
+
+(* prettyDouble, 1e3 <= |v| < 1000 * 1e18f *)
+Lemma pretty_suffix_large v :
+  inject_Z F1e03 <= Qabs v -> Qabs v < inject_Z (1000 * F1e18) ->
+  let c := pd_choice v in
+  pc_wf c = true /\ pc_mul c = false /\
+  1 <= Qabs (pretty_mantissa c v) /\ Qabs (pretty_mantissa c v) < 1000 /\
+  Qabs v == Qabs (pretty_mantissa c v) * inject_Z (pc_factor c).
+Proof.
+  intros H1 H2. cbv zeta. unfold pd_choice. rewrite pd_choice_chain.
+  destruct (chain_large _ H1 H2) as (W & M & L1 & L2 & L3).
+  rewrite (mant_abs _ v (pc_wf_factor _ W)). repeat split; assumption.
+Qed.
+
+(* ------------------------------------------------------ small magnitudes: v * F *)
+(* the float literals 1e-12f .. 1e-3f and 1e15f, 1e12f are not exact powers of ten, so at
+   the exact thresholds the mantissa can leave [1, 1000] by a relative 2^-23 *)
+Definition tol : Q := 1 # 8388608.
+
+Definition small_ok (a : Q) (c : pchoice) : Prop :=
+  pc_wf c = true /\ pc_mul c = true /\
+  1 - tol <= pretty_mantissa c a /\ pretty_mantissa c a <= 1000 * (1 + tol) /\
+  pretty_mantissa c a == a * inject_Z (pc_factor c).
+
+Lemma small_branch F lo hi s a :
+  (0 < F)%Z -> lo <= a -> a <= hi ->
+  Qle_bool (1 - tol) (lo * inject_Z F) = true -> Qle_bool (hi * inject_Z F) (1000 * (1 + tol)) = true ->
+  pc_wf (PC true F s) = true -> small_ok a (PC true F s).
+Proof.
+  intros HF Hlo Hhi B1 B2 Hwf. pose proof (injZ_pos F HF) as HFq. apply Qlt_le_weak in HFq.
+  apply Qle_bool_iff in B1. apply Qle_bool_iff in B2.
+  unfold small_ok, pretty_mantissa. cbn [pc_mul pc_factor PC].
+  split; [assumption|]. split; [reflexivity|]. split; [|split; [|reflexivity]].
+  - eapply Qle_trans; [exact B1|]. now apply Qmult_le_compat_r.
+  - eapply Qle_trans; [|exact B2]. now apply Qmult_le_compat_r.
+Qed.
+
+Lemma chain_small a :
+  / inject_Z F1e15 <= a -> a <= 1 -> small_ok a (chain F1e18 a).
+Proof.
+  intros Hlo Hhi. unfold chain.
+  assert (Big : forall F, (1 < F)%Z -> Qle_bool (inject_Z F) a = false).
+  { intros F HF. destruct (Qle_bool (inject_Z F) a) eqn:E; [|reflexivity]. exfalso.
+    apply Qle_bool_iff in E. assert (X : inject_Z F <= 1) by (eapply Qle_trans; eassumption).
+    unfold Qle, inject_Z in X. simpl in X. lia. }
+  rewrite !Big by reflexivity.
+  destruct (Qle_bool a F1em12) eqn:E1.
+  { apply Qle_bool_iff in E1. apply (small_branch F1e15 (/ inject_Z F1e15) F1em12); try assumption; reflexivity. }
+  apply Qle_bool_false, Qlt_le_weak in E1.
+  destruct (Qle_bool a F1em09) eqn:E2.
+  { apply Qle_bool_iff in E2. apply (small_branch F1e12 F1em12 F1em09); try assumption; reflexivity. }
+  apply Qle_bool_false, Qlt_le_weak in E2.
+  destruct (Qle_bool a F1em06) eqn:E3.
+  { apply Qle_bool_iff in E3. apply (small_branch F1e09 F1em09 F1em06); try assumption; reflexivity. }
+  apply Qle_bool_false, Qlt_le_weak in E3.
+  destruct (Qle_bool a F1em03) eqn:E4.
+  { apply Qle_bool_iff in E4. apply (small_branch F1e06 F1em06 F1em03); try assumption; reflexivity. }
+  apply Qle_bool_false, Qlt_le_weak in E4.
+  destruct (Qle_bool a 1) eqn:E5.
+  { apply Qle_bool_iff in E5. apply (small_branch F1e03 F1em03 1); try assumption; reflexivity. }
+  apply Qle_bool_false in E5. exfalso. apply (Qlt_irrefl a). eapply Qle_lt_trans; eassumption.
+Qed.
+
+(* prettyDouble, 1/1e15f <= |v| <= 1 *)
+Lemma pretty_suffix_small v :
+  / inject_Z F1e15 <= Qabs v -> Qabs v <= 1 ->
+  let c := pd_choice v in
+  pc_wf c = true /\ pc_mul c = true /\
+  1 - tol <= Qabs (pretty_mantissa c v) /\ Qabs (pretty_mantissa c v) <= 1000 * (1 + tol) /\
+  Qabs (pretty_mantissa c v) == Qabs v * inject_Z (pc_factor c).
+Proof.
+  intros H1 H2. cbv zeta. unfold pd_choice. rewrite pd_choice_chain.
+  destruct (chain_small _ H1 H2) as (W & M & L1 & L2 & L3).
+  rewrite (mant_abs _ v (pc_wf_factor _ W)). repeat split; assumption.
+Qed.
+
+(* between 1 and 1000 no suffix is used *)
+Lemma pretty_plain v : 1 < Qabs v -> Qabs v < inject_Z F1e03 -> pc_suffix (pd_choice v) = 0%N.
+Proof.
+  intros H1 H2. unfold pd_choice. rewrite pd_choice_chain. set (a := Qabs v) in *. unfold chain.
+  assert (Big : forall F, (F1e03 <= F)%Z -> Qle_bool (inject_Z F) a = false).
+  { intros F HF. destruct (Qle_bool (inject_Z F) a) eqn:E; [|reflexivity]. exfalso.
+    apply Qle_bool_iff in E. assert (X : inject_Z F < inject_Z F1e03) by (eapply Qle_lt_trans; eassumption).
+    unfold Qlt, inject_Z in X. cbn [Qnum Qden] in X. unfold F1e03 in *. lia. }
+  rewrite !Big by (apply Z.leb_le; reflexivity).
+  assert (Small : forall q, Qle_bool q 1 = true -> Qle_bool a q = false).
+  { intros q Hq. destruct (Qle_bool a q) eqn:E; [|reflexivity]. exfalso.
+    apply Qle_bool_iff in E. apply Qle_bool_iff in Hq. apply (Qlt_irrefl a).
+    eapply Qle_lt_trans; [exact E|]. eapply Qle_lt_trans; eassumption. }
+  rewrite !Small by reflexivity. reflexivity.
+Qed.
+
+(* ------------------------------------------------------------- prettyNumber *)
+Lemma pn_choice_chain first s :
+  (F1e03 <= first)%Z ->
+  pn_choice_gen first s = let d := Z.of_N (double_of_N s) in
+    if (F1e03 <=? d)%Z then chain first (inject_Z d) else PC false 1 0.
+Proof.
+  intro Hfirst. unfold pn_choice_gen, chain. cbv zeta. set (d := Z.of_N (double_of_N s)). clearbody d.
+  assert (T : forall F, Qle_bool (inject_Z F) (inject_Z d) = (F <=? d)%Z).
+  { intro F. unfold Qle_bool, inject_Z. cbn [Qnum Qden]. now rewrite !Z.mul_1_r. }
+  rewrite !T.
+  repeat match goal with
+         | |- context [if (?F <=? d)%Z then _ else _] => destruct (F <=? d)%Z eqn:?; try reflexivity
+         end.
+  all: unfold F1e18, F1e15, F1e12, F1e09, F1e06, F1e03 in *; lia.
+Qed.
+
+(* prettyNumber(s): the size_t is first converted to double (round to nearest even); for
+   d = (double)s >= 1000 the same statement as for prettyDouble holds exactly *)
+Lemma pretty_number_suffix s :
+  let d := Z.of_N (double_of_N s) in
+  (F1e03 <= d < 1000 * F1e18)%Z ->
+  large_ok (inject_Z d) (pn_choice s).
+Proof.
+  cbv zeta. intros [H1 H2]. unfold pn_choice. rewrite pn_choice_chain by (apply Z.leb_le; reflexivity). cbv zeta.
+  rewrite (proj2 (Z.leb_le _ _) H1). apply chain_large.
+  - now rewrite <- Zle_Qle.
+  - now rewrite <- Zlt_Qlt.
+Qed.
+
+Lemma pretty_number_plain s :
+  (Z.of_N (double_of_N s) < F1e03)%Z -> pc_suffix (pn_choice s) = 0%N.
+Proof.
+  intro H. unfold pn_choice. rewrite pn_choice_chain by (apply Z.leb_le; reflexivity). cbv zeta.
+  destruct (Z.leb_spec F1e03 (Z.of_N (double_of_N s))); [lia | reflexivity].
+Qed.
+
+(* every size_t below 2^53 is converted exactly *)
+Lemma double_of_N_exact s : (s < 2 ^ 53)%N -> double_of_N s = s.
+Proof.
+  intro H. unfold double_of_N.
+  assert (L : (N.size s <= 53)%N).
+  { destruct (N.eq_dec s 0) as [->|Hne]; [cbn; lia|].
+    rewrite N.size_log2 by assumption. apply N.le_succ_l. apply N.log2_lt_pow2; lia. }
+  now rewrite (proj2 (N.leb_le _ _) L).
+Qed.
+
+(* ---------------------------------------------------------------- refutation *)
+(* /repo before the repair tested ">= 1e15f" first and divided by 1e18f: 2*10^16 was
+   printed with mantissa 0.02 and suffix E; the repaired chain gives 20.0 P *)
+Lemma pretty_exa_old_refuted :
+  exists v : Q,
+    inject_Z F1e15 <= v /\ v < inject_Z F1e18 /\
+    pc_suffix (pd_choice_old v) = 69%N /\ pretty_mantissa (pd_choice_old v) v < 1 /\
+    pc_suffix (pd_choice v) = 80%N /\
+    pc_suffix (pn_choice_old 20000000000000000) = 69%N /\ pc_suffix (pn_choice 20000000000000000) = 80%N.
+Proof.
+  exists (inject_Z 20000000000000000).
+  split; [vm_compute; discriminate|]. split; [vm_compute; reflexivity|].
+  split; [vm_compute; reflexivity|]. split; [vm_compute; reflexivity|].
+  split; [vm_compute; reflexivity|]. split; vm_compute; reflexivity.
+Qed.
